@@ -59,7 +59,7 @@ def run(run, replay=None):
             for _ in range(rng.choice([1, 1, 2, 3])):
                 data = cgen.corrupt(data, rng)
             origin = 'corrupted-file'
-        res = rdriver.read_bytes(data)
+        res = rdriver.read_bytes(data, abstract=False)
         dom = rdriver.dom_load(data)
         c = rdriver.case(n, 'contract', data, cat, result=res, ship_recs=False, dom=dom)
         cases.append(c)
@@ -73,7 +73,7 @@ def run(run, replay=None):
                           cfg_extra='CONSTANT Tables <- NoTables\n', timeout=1200)
     for b in raws:
         data = bytes(b['f'])
-        res = rdriver.read_bytes(data)
+        res = rdriver.read_bytes(data, abstract=False)
         c = rdriver.case(len(cases), 'contract', data, cat, result=res, ship_recs=False, dom=rdriver.dom_load(data))
         cases.append(c)
         run.count(data, nontrivial=res[1] != 'done')
